@@ -275,7 +275,33 @@ pub fn proof(reg: &mut Registry, spec: &Value, now: SystemTime) -> ProofOfPaymen
             timestamp,
             quoting_metrics,
             rewards_address,
-            pub_key: if pubp < 0 { vec![1, 2, 3] } else { peer_kp(pubp).public().encode_protobuf() },
+            pub_key: if pubp < 0 {
+                vec![1, 2, 3]
+            } else {
+                // "pubenc": the same key, re-encoded non-canonically (pub_key is not covered by the quote's
+                // signature, and protobuf decoders accept unknown trailing fields / non-minimal varints)
+                let mut pk = peer_kp(pubp).public().encode_protobuf();
+                match q.get("pubenc").and_then(|v| v.as_str()) {
+                    Some("trailing") => pk.extend_from_slice(&[0x18, 0x00]),
+                    Some("trailing2") => pk.extend_from_slice(&[0x22, 0x02, 0xaa, 0xbb]),
+                    Some("varint") => {
+                        // 0x08 0x01 (Type = Ed25519) -> 0x08 0x81 0x00
+                        if pk.len() > 2 && pk[0] == 0x08 {
+                            let t = pk[1];
+                            pk.splice(1..2, [t | 0x80, 0x00]);
+                        }
+                    }
+                    Some("lenvarint") => {
+                        // 0x12 0x20 (Data, 32 bytes) -> 0x12 0xa0 0x00
+                        if pk.len() > 4 && pk[2] == 0x12 {
+                            let l = pk[3];
+                            pk.splice(3..4, [l | 0x80, 0x00]);
+                        }
+                    }
+                    _ => {}
+                }
+                pk
+            },
             signature: vec![],
         };
         quote.signature = match &q["sig"] {
